@@ -18,16 +18,38 @@ def v_files():
     return sorted(out)
 
 
+def strip_comments(txt):
+    """Remove (nested) Coq comments and string literals' contents (Coq lexes strings inside comments too)."""
+    out, i, depth, n = [], 0, 0, len(txt)
+    while i < n:
+        if txt.startswith("(*", i):
+            depth += 1; i += 2
+        elif depth and txt.startswith("*)", i):
+            depth -= 1; i += 2
+        elif txt[i] == '"':
+            j = i + 1
+            while j < n:
+                if txt[j] == '"':
+                    if j + 1 < n and txt[j + 1] == '"':
+                        j += 2; continue
+                    break
+                j += 1
+            if not depth:
+                out.append('""')
+            i = j + 1
+        else:
+            if not depth:
+                out.append(txt[i])
+            i += 1
+    return "".join(out)
+
+
 def hygiene():
     """Forbidden vernacular anywhere in the development (checked on every run)."""
     bad = []
     for rel in v_files():
         txt = open(os.path.join(env.COQ, rel), encoding="utf-8").read()
-        # strip comments (non-nested is enough for our own files; nested handled by loop)
-        prev = None
-        while prev != txt:
-            prev = txt
-            txt = re.sub(r"\(\*[^()]*?\*\)", "", txt, flags=re.S)
+        txt = strip_comments(txt)
         for m in _FORBIDDEN.finditer(txt):
             bad.append(f"{rel}: {m.group(0)}")
         # Variable/Hypothesis outside a section
@@ -81,7 +103,7 @@ def prepare_project():
                        check=True, stdout=subprocess.DEVNULL, stderr=subprocess.DEVNULL)
 
 
-def build(targets=None, timeout=1500):
+def build(targets=None, timeout=420):
     """Full .vo build of the given targets (relative to coq/), never -vos. Returns (ok, log, cmd)."""
     with _Lock():
         prepare_project()
